@@ -7,6 +7,7 @@ fn main() {
     let mut r = match a.check.as_str() {
         "c01" => rt.block_on(osv::e2e::c01::run(&a)),
         "c02" => rt.block_on(osv::e2e::c02::run(&a)),
+        "c02x" => rt.block_on(osv::e2e::c02x::run(&a)),
         "c03" => rt.block_on(osv::e2e::c03::run(&a)),
         "c06" => rt.block_on(osv::e2e::c06::run(&a)),
         "c07" => rt.block_on(osv::e2e::c07::run(&a)),
